@@ -9,7 +9,7 @@ enum Source { Iter(Expr), IterMut(Expr), Range(Expr, Expr), VecVal(Expr), SliceR
 #[derive(Debug)]
 enum Adapter { Enumerate, Zip(Source), Filter(ExprClosure), Map(ExprClosure), FilterMap(ExprClosure), Rev }
 #[derive(Debug)]
-enum Sink { ForEach(ExprClosure), Fold(Expr, ExprClosure), All(ExprClosure), Any(ExprClosure), Count, Collect, Find(ExprClosure), TryFold(Expr, ExprClosure), ForLoop(Pat, syn::Block) }
+enum Sink { MinBy(ExprClosure), ForEach(ExprClosure), Fold(Expr, ExprClosure), All(ExprClosure), Any(ExprClosure), Count, Collect, Find(ExprClosure), TryFold(Expr, ExprClosure), ForLoop(Pat, syn::Block) }
 
 struct Chain { source: Source, adapters: Vec<Adapter>, }
 
@@ -141,6 +141,12 @@ impl Lower {
                 (quote!(let mut #r = true;), quote!(if !(#call) { #r = false; break; }), quote!(#r)) }
             Sink::Any(c) => { let r = self.fresh("res"); self.last_sink_name = Some(("res".into(), r.clone())); let call = self.inline(c, vec![quote!(#it)]);
                 (quote!(let mut #r = false;), quote!(if #call { #r = true; break; }), quote!(#r)) }
+            Sink::MinBy(c) => {
+                // std: fold keeping the earlier element unless the later one compares strictly smaller (first minimum wins)
+                let r = self.fresh("best"); self.last_sink_name = Some(("best".into(), r.clone()));
+                let b = self.fresh("b");
+                let call = self.inline(c, vec![quote!(&#b), quote!(&#it)]);
+                (quote!(let mut #r = None;), quote!(match #r { None => { #r = Some(#it); } Some(#b) => { match #call { std::cmp::Ordering::Greater => { #r = Some(#it); } _ => {} } } }), quote!(#r)) }
             Sink::Count => { let r = self.fresh("cnt"); self.last_sink_name = Some(("cnt".into(), r.clone())); (quote!(let mut #r: usize = 0;), quote!(#r += 1;), quote!(#r)) }
             Sink::Collect => { let r = self.fresh("out"); self.last_sink_name = Some(("out".into(), r.clone())); (quote!(let mut #r = Vec::new();), quote!(#r.push(#it);), quote!(#r)) }
             Sink::Find(c) => { let r = self.fresh("res"); self.last_sink_name = Some(("res".into(), r.clone())); let call = self.inline(c, vec![quote!(&#it)]);
@@ -231,6 +237,7 @@ impl Lower {
             "all" => Sink::All(closure_arg(m, 0)?),
             "any" => Sink::Any(closure_arg(m, 0)?),
             "count" => Sink::Count,
+            "min_by" => Sink::MinBy(closure_arg(m, 0)?),
             "collect" => Sink::Collect,
             "find" => Sink::Find(closure_arg(m, 0)?),
             "try_fold" => Sink::TryFold(m.args.first()?.clone(), closure_arg(m, 1)?),
@@ -290,6 +297,15 @@ impl VisitMut for Lower {
                     let mv = self.fresh("m");
                     Some(parse_quote!({ let #mv = #mat; #nf(&#mv) }))
                 } else { None }
+            }
+            // Option::map with a closure on a lowered chain result (e.g. `.min_by(..).map(|x| ..)`): a match
+            Expr::MethodCall(m) if m.method == "map" && m.args.len() == 1 && matches!(strip(&m.args[0]), Expr::Closure(_)) && matches!(strip(&m.receiver), Expr::Block(_)) => {
+                let c = closure_arg(m, 0).unwrap();
+                let x = self.fresh("x");
+                let recv = &m.receiver;
+                let call = self.inline(&c, vec![quote!(#x)]);
+                self.sites += 1;
+                Some(parse_quote!(match #recv { Some(#x) => Some(#call), None => None }))
             }
             Expr::MethodCall(m) => self.try_lower_call(m),
             Expr::ForLoop(f) if matches!(&*f.expr, Expr::Path(p) if p.path.get_ident().map(|i| self.vec_params.contains(&i.to_string())).unwrap_or(false)) => {
